@@ -28,7 +28,7 @@ type Case struct {
 }
 
 var dirPool = []string{"a", "b", "a b", "a-b", "a.b", "a!", "lib", "library", "lib.d", ".git", ".x", "sub"}
-var basePool = []string{"hook", "run", "00-f", "z!", "Hook"}
+var basePool = []string{"hook", "run", "00-f", "z!", "Hook", "cmd", "ctxt", "dump-to-json", "render_yaml", "yaml", "restart-systemd"}
 var extPool = []string{".sh", ".py", "", ".yaml", ".json", ".md", ".txt", ".yml", ".sh.txt", ".txt.sh"}
 var modePool = []uint32{0o644, 0o600, 0o755, 0o700, 0o100, 0o010, 0o001, 0o111, 0o750, 0o755, 0o755}
 var cfgPool = []string{"valid-json", "valid-json", "valid-json", "valid-yaml", "valid-yaml", "valid-schedule", "valid-json", "valid-json", "exit1", "badtype", "badversion", "unknownfield", "garbage"}
